@@ -585,7 +585,7 @@ fn insert_description(ch: &mut Choices, toks: &mut Vec<String>) {
     toks.insert(at, d);
 }
 
-fn configs() -> Vec<Config> {
+pub fn configs() -> Vec<Config> {
     let texts = [
         "schema: s.graphql\ndocuments: o.graphql\n",
         "schema: s.graphql\ndocuments: o.graphql\nextensions:\n  nitrogql:\n    generate:\n      mode: standalone-ts-4.0\n      emitSchemaRuntime: true\n      export:\n        defaultExportForOperation: false\n        variablesType: true\n        operationResultType: true\n      name:\n        capitalizeOperationNames: false\n        fragmentTypeSuffix: Frag\n        fragmentVariableSuffix: Doc\n      type:\n        allowUndefinedAsOptionalInput: false\n        scalarTypes:\n          DateTime: string\n          JSON:\n            send: unknown\n            receive: unknown\n",
@@ -729,7 +729,7 @@ fn gen_texts(case: &mut Case, which: u8) -> Texts {
     Texts { schema: schema_t, ops: ops_t, mode, mutated }
 }
 
-fn pipeline_case(case: &mut Case, campaign: &'static str, which: u8, cfgs: &[Config]) -> CaseResult {
+pub fn pipeline_case(case: &mut Case, campaign: &'static str, which: u8, cfgs: &[Config]) -> CaseResult {
     let _g = InflightGuard::enter(campaign, case.ch.data());
     let t = gen_texts(case, which);
     let cfg = case.ch.pick(cfgs).clone();
@@ -786,6 +786,46 @@ fn pipeline_case(case: &mut Case, campaign: &'static str, which: u8, cfgs: &[Con
     Ok(())
 }
 
+/// both parsers on one text, plus the later stages that need no schema, plus rendering of
+/// every diagnostic. Returns what was reached and whether either parser accepted the text.
+pub fn parsers_only_text(text: &str) -> Result<(Reached, bool), Failure> {
+    let detail = json!({"text": text});
+    let files: Vec<(PathBuf, &str, ())> = vec![(PathBuf::from("/p/x.graphql"), text, ())];
+    let mut reached = Reached::default();
+    let mut any_ok = false;
+    set_current_file_of_pos(0);
+    match guard(|| parse_operation_document(text)).map_err(|p| panic_failure("parse_operation_document", &p, detail.clone()))? {
+        Ok(doc) => {
+            any_ok = true;
+            // the stages that need no schema
+            if let Ok((d, _)) = guard(|| resolve_operation_extensions(doc)).map_err(|p| panic_failure("resolve_operation_extensions", &p, detail.clone()))? {
+                guard(|| {
+                    let mut buffer = String::new();
+                    let mut writer = JsStringWriter::new(&mut buffer);
+                    d.print_graphql(&mut writer);
+                })
+                .map_err(|p| panic_failure("print_graphql(operation)", &p, detail.clone()))?;
+            }
+        }
+        Err(e) => render_errors(vec![e.into()], &files, &detail, &mut reached)?,
+    }
+    match guard(|| parse_type_system_document(text)).map_err(|p| panic_failure("parse_type_system_document", &p, detail.clone()))? {
+        Ok(doc) => {
+            any_ok = true;
+            let r = guard(|| resolve_schema_extensions(doc)).map_err(|p| panic_failure("resolve_schema_extensions", &p, detail.clone()))?;
+            match r {
+                Ok(d) => {
+                    let cerrs = guard(|| check_type_system_document(&d)).map_err(|p| panic_failure("check_type_system_document", &p, detail.clone()))?;
+                    render_errors(cerrs.into_iter().map(Into::into).collect(), &files, &detail, &mut reached)?;
+                }
+                Err(e) => render_errors(vec![e.into()], &files, &detail, &mut reached)?,
+            }
+        }
+        Err(e) => render_errors(vec![e.into()], &files, &detail, &mut reached)?,
+    }
+    Ok((reached, any_ok))
+}
+
 fn parser_only_case(case: &mut Case) -> CaseResult {
     let _g = InflightGuard::enter("parsers", case.ch.data());
     // raw text straight into both parsers + diagnostic rendering of the syntax error
@@ -820,40 +860,7 @@ fn parser_only_case(case: &mut Case) -> CaseResult {
         case.discard("nesting beyond ordinary limits");
         return Ok(());
     }
-    let detail = json!({"text": text});
-    let files: Vec<(PathBuf, &str, ())> = vec![(PathBuf::from("/p/x.graphql"), text.as_str(), ())];
-    let mut reached = Reached::default();
-    let mut any_ok = false;
-    set_current_file_of_pos(0);
-    match guard(|| parse_operation_document(&text)).map_err(|p| panic_failure("parse_operation_document", &p, detail.clone()))? {
-        Ok(doc) => {
-            any_ok = true;
-            // the stages that need no schema
-            if let Ok((d, _)) = guard(|| resolve_operation_extensions(doc)).map_err(|p| panic_failure("resolve_operation_extensions", &p, detail.clone()))? {
-                guard(|| {
-                    let mut buffer = String::new();
-                    let mut writer = JsStringWriter::new(&mut buffer);
-                    d.print_graphql(&mut writer);
-                })
-                .map_err(|p| panic_failure("print_graphql(operation)", &p, detail.clone()))?;
-            }
-        }
-        Err(e) => render_errors(vec![e.into()], &files, &detail, &mut reached)?,
-    }
-    match guard(|| parse_type_system_document(&text)).map_err(|p| panic_failure("parse_type_system_document", &p, detail.clone()))? {
-        Ok(doc) => {
-            any_ok = true;
-            let r = guard(|| resolve_schema_extensions(doc)).map_err(|p| panic_failure("resolve_schema_extensions", &p, detail.clone()))?;
-            match r {
-                Ok(d) => {
-                    let cerrs = guard(|| check_type_system_document(&d)).map_err(|p| panic_failure("check_type_system_document", &p, detail.clone()))?;
-                    render_errors(cerrs.into_iter().map(Into::into).collect(), &files, &detail, &mut reached)?;
-                }
-                Err(e) => render_errors(vec![e.into()], &files, &detail, &mut reached)?,
-            }
-        }
-        Err(e) => render_errors(vec![e.into()], &files, &detail, &mut reached)?,
-    }
+    let (reached, any_ok) = parsers_only_text(&text)?;
     case.evals(2 + reached.diagnostics as u64);
     if any_ok {
         case.label("parsed");
@@ -1101,4 +1108,49 @@ pub fn run(env: &Env) -> i32 {
         }
     }
     rep.finish()
+}
+
+/// Starting corpus for the libFuzzer targets (committed under harness/fuzz/seeds): small valid
+/// inputs from the harness generators with fixed choice vectors.
+pub fn write_fuzz_seeds(dir: &Path) {
+    fn lcg(seed: u64, n: usize) -> Vec<u16> {
+        let mut x = seed.wrapping_mul(0x9E37_79B9_7F4A_7C15).wrapping_add(1);
+        (0..n)
+            .map(|_| {
+                x = x.wrapping_mul(6364136223846793005).wrapping_add(1442695040888963407);
+                (x >> 40) as u16
+            })
+            .collect()
+    }
+    let mk = |sub: &str| {
+        let d = dir.join(sub);
+        let _ = std::fs::remove_dir_all(&d);
+        std::fs::create_dir_all(&d).unwrap();
+        d
+    };
+    let (d_op, d_ts, d_pipe, d_struct, d_cfg) = (mk("parse_op"), mk("parse_schema"), mk("pipeline"), mk("structured"), mk("config"));
+    for i in 0..12u64 {
+        let mut ch = Choices::new(lcg(i, 400));
+        let doc = g_op_doc(&mut ch, true);
+        let opts = if i % 2 == 0 { RenderOpts::canonical() } else { RenderOpts::wild() };
+        std::fs::write(d_op.join(format!("op{i:02}.graphql")), render_op_doc(&doc, opts.clone(), Some(&mut ch)).text).unwrap();
+        let mut ch = Choices::new(lcg(100 + i, 500));
+        let doc = g_ts_doc(&mut ch);
+        std::fs::write(d_ts.join(format!("ts{i:02}.graphql")), render_ts_doc(&doc, opts, Some(&mut ch)).text).unwrap();
+        let mut ch = Choices::new(lcg(200 + i, 1500));
+        let gs = gen_schema(&mut ch, &SchemaGenOpts::default());
+        let (gd, _) = gen_doc(&mut ch, &gs.schema, &DocGenOpts::default());
+        let text = format!("{}\n#####\n{}", canon_ts(&gs.doc), canon_op(&gd.doc));
+        if text.len() <= 8000 {
+            std::fs::write(d_pipe.join(format!("p{i:02}.txt")), text).unwrap();
+        }
+        let mut bytes = vec![(i % 5) as u8];
+        for v in lcg(300 + i, 1200) {
+            bytes.extend_from_slice(&v.to_le_bytes());
+        }
+        std::fs::write(d_struct.join(format!("c{i:02}.bin")), bytes).unwrap();
+    }
+    for (i, c) in CONFIG_SEEDS.iter().enumerate() {
+        std::fs::write(d_cfg.join(format!("cfg{i}.yaml")), c).unwrap();
+    }
 }
